@@ -97,6 +97,120 @@ theorem searchShardGo_nil (i : Nat) (e : Bool) (calls : List Call) :
     | failTmu => simp [searchShardGo]
     | resp code _ _ _ => cases code <;> simp [searchShardGo]
 
+/-- the shuffled replica loop: the answer is the first asked replica that does not fail, and it carries that
+    replica's own index -/
+theorem searchShardPGo_ok (e : Bool) (l : List (Nat × Call)) (rep : Nat) (ids : List ID) (t n : Nat) :
+    searchShardPGo e l = .ok rep ids t n ↔
+      ∃ k : Nat, l[k]? = some (rep, Call.resp .none ids t n) ∧ ∀ j : Nat, j < k → ∃ r : Nat, l[j]? = some (r, Call.fail) := by
+  induction l generalizing e with
+  | nil => simp [searchShardPGo]; split <;> simp
+  | cons a rest ih =>
+    obtain ⟨r, c⟩ := a
+    cases c with
+    | fail =>
+      simp only [searchShardPGo]
+      rw [ih]
+      constructor
+      · rintro ⟨k, h1, h2⟩
+        refine ⟨k + 1, by simpa using h1, ?_⟩
+        intro j hj
+        cases j with
+        | zero => exact ⟨r, by simp⟩
+        | succ j => simpa using h2 j (by omega)
+      · rintro ⟨k, h1, h2⟩
+        cases k with
+        | zero => simp at h1
+        | succ k =>
+          refine ⟨k, by simpa using h1, ?_⟩
+          intro j hj
+          simpa using h2 (j + 1) (by omega)
+    | failWod =>
+      simp only [searchShardPGo]
+      constructor
+      · intro h; cases h
+      · rintro ⟨k, h1, h2⟩
+        cases k with
+        | zero => simp at h1
+        | succ k => obtain ⟨r', hr'⟩ := h2 0 (by omega); simp at hr'
+    | failTmu =>
+      simp only [searchShardPGo]
+      constructor
+      · intro h; cases h
+      · rintro ⟨k, h1, h2⟩
+        cases k with
+        | zero => simp at h1
+        | succ k => obtain ⟨r', hr'⟩ := h2 0 (by omega); simp at hr'
+    | resp code ids' t' n' =>
+      cases code with
+      | none =>
+        simp only [searchShardPGo]
+        constructor
+        · intro h
+          injection h with h0 h1 h2 h3
+          subst h0 h1 h2 h3
+          exact ⟨0, by simp, by intro j hj; omega⟩
+        · rintro ⟨k, h1, h2⟩
+          cases k with
+          | zero =>
+            simp at h1
+            obtain ⟨h0, h1, h3, h4⟩ := h1
+            subst h0 h1 h3 h4
+            rfl
+          | succ k => obtain ⟨r', hr'⟩ := h2 0 (by omega); simp at hr'
+      | wod =>
+        simp only [searchShardPGo]
+        constructor
+        · intro h; cases h
+        · rintro ⟨k, h1, h2⟩
+          cases k with
+          | zero => simp at h1
+          | succ k => obtain ⟨r', hr'⟩ := h2 0 (by omega); simp at hr'
+      | tmu =>
+        simp only [searchShardPGo]
+        constructor
+        · intro h; cases h
+        · rintro ⟨k, h1, h2⟩
+          cases k with
+          | zero => simp at h1
+          | succ k => obtain ⟨r', hr'⟩ := h2 0 (by omega); simp at hr'
+      | tmf =>
+        simp only [searchShardPGo]
+        constructor
+        · intro h; cases h
+        · rintro ⟨k, h1, h2⟩
+          cases k with
+          | zero => simp at h1
+          | succ k => obtain ⟨r', hr'⟩ := h2 0 (by omega); simp at hr'
+
+theorem mem_permuted (perm : List Nat) (calls : List Call) (r : Nat) (c : Call) :
+    (r, c) ∈ permuted perm calls ↔ r ∈ perm ∧ calls[r]? = some c := by
+  simp only [permuted, List.mem_filterMap, Option.map_eq_some_iff]
+  constructor
+  · rintro ⟨a, ha, c', hc', heq⟩
+    injection heq with h1 h2
+    subst h1 h2
+    exact ⟨ha, hc'⟩
+  · rintro ⟨h1, h2⟩
+    exact ⟨r, h1, c, h2, rfl⟩
+
+/-- the replica named in a shuffled shard answer is one that was asked and that itself returned those IDs -/
+theorem searchShardP_source (perm : List Nat) (calls : List Call) (rep : Nat) (ids : List ID) (t n : Nat)
+    (h : searchShardP perm calls = .ok rep ids t n) : rep ∈ perm ∧ calls[rep]? = some (.resp .none ids t n) := by
+  obtain ⟨k, hk, _⟩ := (searchShardPGo_ok false _ rep ids t n).mp h
+  exact (mem_permuted perm calls rep _).mp (List.mem_of_getElem? hk)
+
+/-- without shuffling (`idx = IdxFill(n)`) the permuted loop is the plain one -/
+theorem searchShardPGo_range (i : Nat) (e : Bool) (calls : List Call) :
+    searchShardPGo e ((indexed i calls)) = searchShardGo i e calls := by
+  induction calls generalizing i e with
+  | nil => rfl
+  | cons c rest ih =>
+    cases c with
+    | fail => simp only [indexed, searchShardPGo, searchShardGo]; exact ih _ _
+    | failWod => rfl
+    | failTmu => rfl
+    | resp code _ _ _ => cases code <;> rfl
+
 /-! ### the classification loop -/
 
 def oks : List (Nat × ShardRes) → List QPR
@@ -676,5 +790,61 @@ theorem tier_facts (tier : List (List Call)) (arr : List (Nat × ShardRes))
     have hm : (⟨(s, rep), l, t, e⟩ : QPR) ∈ qs := (hq _).mpr ⟨calls, hs, hok⟩
     simp only [mergeQPRs] at hz
     exact sum_zero_mem _ hz e (List.mem_map.mpr ⟨_, hm, rfl⟩)
+
+/-! ### which replica an ID is attributed to (any replica order) -/
+
+/-- every returned ID is attributed to a (shard, replica) whose own answer, as it arrived, contains it -/
+theorem attribution (arr : List (Nat × ShardRes)) (qs : List QPR) (p : Bool) (h : searchStores arr = .data qs p)
+    (offset size : Nat) (rev : Bool) :
+    ∀ x ∈ paginate (mergeQPRs rev (offset + size) qs).ids offset size,
+      ∃ l t e, (x.2.1, ShardRes.ok x.2.2 l t e) ∈ arr ∧ x.1 ∈ l := by
+  obtain ⟨h1, _, _, _⟩ := storesLoop_data arr [] 0 false qs p h
+  simp only [List.nil_append] at h1
+  intro x hx
+  rw [paginate_merge] at hx
+  have hx' := List.mem_of_mem_drop (List.mem_of_mem_take hx)
+  obtain ⟨q, hq, hs, hi⟩ := (mergedFull_spec rev qs).2.1 x hx'
+  rw [h1] at hq
+  have := mem_oks.mp hq
+  rw [hs] at this
+  exact ⟨q.ids, q.total, q.nerr, this, hi⟩
+
+/-- a success of `Search` is `finish` of the classification of the arrivals of the tier it names -/
+theorem search_ok_tier (hot cold : List (Nat × ShardRes)) (offset size : Nat) (rev : Bool)
+    (ids : List (ID × Src)) (t e : Nat) (p c : Bool) (h : search hot cold offset size rev = .ok ids t e p c) :
+    ∃ qs, searchStores (if c then cold else hot) = .data qs p ∧
+      ids = paginate (mergeQPRs rev (offset + size) qs).ids offset size := by
+  unfold search at h
+  cases hs : searchStores hot with
+  | panic => rw [hs] at h; simp [finish] at h
+  | data qs p' =>
+    rw [hs] at h
+    simp only [finish] at h
+    injection h with h1 h2 h3 h4 h5
+    subst h5
+    exact ⟨qs, by simp [hs, h4], h1.symm⟩
+  | err k =>
+    rw [hs] at h
+    cases k with
+    | wod =>
+      simp only at h
+      split at h
+      · cases h
+      · cases hc : searchStores cold with
+        | err k => rw [hc] at h; simp [finish] at h
+        | panic => rw [hc] at h; simp [finish] at h
+        | data qs p' =>
+          rw [hc] at h
+          simp only [finish] at h
+          injection h with h1 h2 h3 h4 h5
+          subst h5
+          exact ⟨qs, by simp [hc, h4], h1.symm⟩
+    | tmf => simp [finish] at h
+    | tmu => simp [finish] at h
+    | other => simp [finish] at h
+
+/-- the shard answers of a tier whose replicas are asked in the orders `perms s` -/
+def resultsP (perms : Nat → List Nat) (tier : List (List Call)) : List (Nat × ShardRes) :=
+  (indexed 0 tier).map fun sc => (sc.1, searchShardP (perms sc.1) sc.2)
 
 end SV.ProxySearch
